@@ -103,11 +103,25 @@ func (r rapidChooser) Intn(n int) int {
 	return rapid.IntRange(0, n-1).Draw(r.t, "c")
 }
 
+// wrappedGroup is how generated message code puts a nested group into a template: a struct that
+// embeds *RepeatingGroup (cmd/generate-fix emits exactly this shape). wrapNestedItems switches the
+// template builders of this package to it; it is set per case by the group stages.
+type wrappedGroup struct{ *quickfix.RepeatingGroup }
+
+var wrapNestedItems bool
+
+func nestedItem(rg *quickfix.RepeatingGroup) quickfix.GroupItem {
+	if wrapNestedItems {
+		return wrappedGroup{rg}
+	}
+	return rg
+}
+
 func qfTemplate(members []*specxml.Member) quickfix.GroupTemplate {
 	var gt quickfix.GroupTemplate
 	for _, m := range members {
 		if m.IsGroup {
-			gt = append(gt, quickfix.NewRepeatingGroup(quickfix.Tag(m.Tag), qfTemplate(m.Members)))
+			gt = append(gt, nestedItem(quickfix.NewRepeatingGroup(quickfix.Tag(m.Tag), qfTemplate(m.Members))))
 		} else {
 			gt = append(gt, quickfix.GroupElement(quickfix.Tag(m.Tag)))
 		}
